@@ -28,9 +28,23 @@ ALL_MODES = MODES + ("threads",)
 # the k-th next point that directly follows a statement that stored into an object attribute or
 # item" - the instant at which shared state may be half-built, which is where concurrent tasks
 # sharing an estimator can hurt each other.
-QUANTA = (1, 2, 5, 20, 100, 10 ** 9, -1, -1, -2, -3)
+# Values <= -11 hunt at BYTECODE granularity: "until just before the k-th next store
+# instruction" (k = -10 - value). That splits a read-modify-write of shared state written on one
+# line (`self.count += n`), which line-level pre-emption cannot.
+QUANTA = (1, 2, 5, 20, 100, 10 ** 9, "S", "S", "S", "S", "O", "O")  # S / O: hunt, depth drawn next
 _STORE_OPS = {"STORE_ATTR", "STORE_SUBSCR", "DELETE_ATTR", "STORE_SLICE"}
 _STORE_LINES = {}
+_OPS_AT = {}
+
+
+def _op_at(code, offset):
+    m = _OPS_AT.get(code)
+    if m is None:
+        import dis
+
+        m = {ins.offset: ins.opname for ins in dis.get_instructions(code)}
+        _OPS_AT[code] = m
+    return m.get(offset)
 
 
 def _store_lines(code):
@@ -328,11 +342,15 @@ class SimScheduler:
             if steps > budget:
                 raise HarnessError("threads mode: step budget exceeded")
             if failure is not None:
-                kind, what, quantum = "resume", running[0], QUANTA[-1]  # drain
+                kind, what, quantum = "resume", running[0], 10 ** 9  # drain
             else:
                 self.stats["reorder_choices"] += 1 if len(options) > 1 else 0
                 kind, what = options[self.choices.pick(len(options))]
                 quantum = QUANTA[self.choices.pick(len(QUANTA))]
+                if quantum == "S":    # until the k-th next post-store line point
+                    quantum = -(1 + self.choices.pick(3))
+                elif quantum == "O":  # until just before the k-th next store instruction
+                    quantum = -10 - (1 + self.choices.pick(16))
             if kind == "start":
                 k = what
                 t = _TaskThread(self, k, graph[k], {d: store[d] for d in deps[k]})
@@ -419,12 +437,32 @@ class _TaskThread:
 
     def _trace_call(self, frame, event, arg):
         if frame.f_code.co_filename.startswith(self.sim._repo_prefix):
+            # always on: CPython instruments a code object for opcode events the first time a
+            # frame of it asks for them and keeps it instrumented, so switching this per quantum
+            # made event delivery depend on what had run earlier in the process
+            frame.f_trace_opcodes = True
             return self._trace_line
         return None
 
+    def _yield(self):
+        self.preempted += 1
+        self.sim.stats["preemptions"] += 1
+        self.sim._back.set()
+        self.go.wait()
+        self.go.clear()
+
     def _trace_line(self, frame, event, arg):
+        if event == "opcode":
+            if self.quantum <= -11 and _op_at(frame.f_code, frame.f_lasti) in _STORE_OPS:
+                self.quantum += 1
+                if self.quantum == -10:
+                    self.sim.stats["opcode_preemptions"] = self.sim.stats.get("opcode_preemptions", 0) + 1
+                    self._yield()
+            return self._trace_line
         if event == "line":
             last, self.last = self.last, (frame.f_code, frame.f_lineno)
+            if self.quantum <= -10:
+                return self._trace_line  # bytecode hunting: line events do not count
             if self.quantum < 0:
                 # hunting: count only points that directly follow an attribute / item store
                 if last is not None and last[1] in _store_lines(last[0]):
@@ -436,11 +474,7 @@ class _TaskThread:
                 self.quantum -= 1
                 stop = self.quantum <= 0
             if stop:
-                self.preempted += 1
-                self.sim.stats["preemptions"] += 1
-                self.sim._back.set()
-                self.go.wait()
-                self.go.clear()
+                self._yield()
         return self._trace_line
 
 
